@@ -28,11 +28,28 @@ class Delay:
         self.done = done
 
 
+class Do:
+    """A handler may return Do(value, actions): the wrapper calls every
+    action (a function; what it returns is awaited on the asyncio drive when
+    it is awaitable) before completing with `value` - e.g. emits issued from
+    inside the handler."""
+
+    def __init__(self, value, actions):
+        self.value = value
+        self.actions = actions
+
+
 def wrap_handler(fn, is_async, coroutine):
     """Wrap a plain function as the kind of handler to register."""
     if is_async and coroutine:
         async def h(*a):
             r = fn(*a)
+            if isinstance(r, Do):
+                for act in r.actions:
+                    x = act()
+                    if asyncio.iscoroutine(x):
+                        await x
+                return r.value
             if isinstance(r, Delay):
                 if r.delay:
                     await asyncio.sleep(r.delay)
@@ -43,6 +60,12 @@ def wrap_handler(fn, is_async, coroutine):
     else:
         def h(*a):
             r = fn(*a)
+            if isinstance(r, Do):
+                for act in r.actions:
+                    x = act()
+                    if asyncio.iscoroutine(x):
+                        x.close()     # (a plain function cannot await it)
+                return r.value
             if isinstance(r, Delay):
                 if r.delay and not is_async:
                     import time
